@@ -115,6 +115,10 @@ impl Store {
         #[cfg(target_family = "wasm")]
         let _ = blocking;
 
+        #[cfg(all(feature = "verif", not(target_family = "wasm")))]
+        if let Ok(x) = fs::read(root.join(MANIFEST)) {
+            veryl_path::sim::observe_read("manifest.read", &root.join(MANIFEST), &x);
+        }
         let parsed = fs::read_to_string(root.join(MANIFEST))
             .ok()
             .and_then(|x| toml::from_str::<Manifest>(&x).ok());
@@ -168,6 +172,8 @@ impl Store {
         let name = content_hash(&data);
         let rel = format!("{FRAGMENT_DIR}/{}/{}.{FRAGMENT_EXT}", &name[..2], name);
         let path = self.root.join(&rel);
+        #[cfg(all(feature = "verif", not(target_family = "wasm")))]
+        let _ = veryl_path::sim::point("blob.exists", &path);
         if !path.exists() {
             if let Some(parent) = path.parent() {
                 let _ = fs::create_dir_all(parent);
@@ -182,7 +188,11 @@ impl Store {
 
     /// Reads and verifies a content-addressed blob, returning its payload.
     fn read_blob(&self, rel: &str) -> Option<Vec<u8>> {
+        #[cfg(all(feature = "verif", not(target_family = "wasm")))]
+        let _ = veryl_path::sim::point("blob.read", &self.root.join(rel));
         let data = fs::read(self.root.join(rel)).ok()?;
+        #[cfg(all(feature = "verif", not(target_family = "wasm")))]
+        veryl_path::sim::observe_read("blob.data", &self.root.join(rel), &data);
         let payload = data.strip_prefix(BLOB_MAGIC.as_slice())?;
         let (version, payload) = payload.split_first_chunk::<4>()?;
         if u32::from_le_bytes(*version) != SCHEMA_VERSION {
@@ -312,6 +322,10 @@ impl Store {
                 if path.extension().is_some_and(|x| x == FRAGMENT_EXT)
                     && !referenced.contains(&path)
                 {
+                    #[cfg(all(feature = "verif", not(target_family = "wasm")))]
+                    if veryl_path::sim::point("gc.remove", &path).is_err() {
+                        continue;
+                    }
                     let _ = fs::remove_file(&path);
                 }
             }
@@ -330,6 +344,18 @@ fn acquire_lock(root: &Path, blocking: bool) -> LockResult {
     let Ok(lock) = fs::File::create(root.join("lock")) else {
         return LockResult::Unavailable;
     };
+    #[cfg(feature = "verif")]
+    {
+        let path = root.join("lock");
+        let ok = if blocking {
+            veryl_path::sim::lock_blocking(&lock, &path).is_ok()
+        } else {
+            veryl_path::sim::point("lock.try", &path).is_ok()
+        };
+        if !ok {
+            return LockResult::Unavailable;
+        }
+    }
     let locked = if blocking {
         fs4::FileExt::lock(&lock).is_ok()
     } else {
